@@ -210,9 +210,9 @@ Proof.
   - rewrite forallb_forall in H2. rewrite Forall_forall in *. intros x Hx. specialize (Hf x Hx). specialize (H2 x Hx). apply Z.ltb_lt in H2. change (2^64) with 18446744073709551616. lia.
   - destruct l; [discriminate|cbn; lia].
 Qed.
-Theorem scoll_sizes_ok_upto_1024 : forall log2 max, 1 <= max <= 1024 -> ssizes_okb (coll_sizes_me 1%N log2 max) = true.
+Theorem scoll_sizes_ok_upto_256 : forall log2 max, 1 <= max <= 256 -> ssizes_okb (coll_sizes_me 1%N log2 max) = true.
 Proof.
-  assert (H : forallb (fun b => forallb (fun i => ssizes_okb (coll_sizes_me 1%N b (Z.of_nat i))) (seq 1 1024)) [true; false] = true) by (vm_compute; reflexivity).
+  assert (H : forallb (fun b => forallb (fun i => ssizes_okb (coll_sizes_me 1%N b (Z.of_nat i))) (seq 1 256)) [true; false] = true) by (vm_compute; reflexivity).
   intros log2 max Hm. rewrite forallb_forall in H. assert (Hb : In log2 [true; false]) by (destruct log2; cbn; auto).
   specialize (H log2 Hb). rewrite forallb_forall in H. replace max with (Z.of_nat (Z.to_nat max)) by lia. apply H. apply in_seq. lia.
 Qed.
